@@ -547,4 +547,8 @@ def run(tier, replay=None):
                 lap(f"cli:posterior-oracle:{'deep' if deep else 'shallow'}:{d}")
             finally:
                 shutil.rmtree(tmp, ignore_errors=True)
+    # ------------------------------------------------------------------ per-sample / option plumbing of the programs (shared observer)
+    if tier != "warm":
+        from . import plumbing
+        plumbing.run_plumbing(chk, C.rng(PROP + ":plumbing"), None, PROP, programs=("call-exact",), tier=tier)
     return chk.finish()
